@@ -46,7 +46,8 @@ def run(ctx, r1='C10.1', r2='C10.2', r3='C10.3'):
     master, routines = M.publication_routines(ctx)
     ctx.require(len(routines) >= 2, 'publication routines of the master '
                                     '(found %s)' % [f.qualname
-                                                    for f in routines])
+                                                    for f in routines],
+                                                        rule=r3)
     nz = N.Normaliser()
     for func in routines:
         graph, ops = M.record_ops(ctx, func)
@@ -103,13 +104,14 @@ def run(ctx, r1='C10.1', r2='C10.2', r3='C10.3'):
     facts = N.must_facts(graph, nz)
     for dnode, rec in dels:
         inner = K.enclosing_for(graph, dnode, rec[0])
-        ctx.require(inner is not None, 'loop over the servers of an entry')
+        ctx.require(inner is not None, 'loop over the servers of an entry',
+            rule=r3)
         outer = None
         for cand in graph.nodes:
             if cand.kind == 'for' and cand is not inner and \
                     inner in K.loop_body_nodes(cand):
                 outer = cand
-        ctx.require(outer is not None, 'loop over the integrity map')
+        ctx.require(outer is not None, 'loop over the integrity map', rule=r3)
         entry_vars = sorted(N.for_targets(outer))
         dom = N.txt(inner.ast.iter)
         ctx.ob(r3, func, inner, dom in entry_vars,
@@ -257,11 +259,12 @@ def _feeder(ctx, loader, nz, rule='C10.3'):
     rets = [n for n in graph.nodes if n.kind == 'return' and
             isinstance(n.ast.value, ast.Tuple) and
             len(n.ast.value.elts) == 2]
-    ctx.require(rets, 'return (placed, restored) of restore_placement')
+    ctx.require(rets, 'return (placed, restored) of restore_placement',
+        rule=rule)
     places = [(n, c) for n, c in K.nodes_calling(
         graph, lambda c: K.is_meth(c, 'restore', 'put') and c.args and
         not (K.recv_text(c) or '').endswith('backend'))]
-    ctx.require(places, 'placements in restore_placement')
+    ctx.require(places, 'placements in restore_placement', rule=rule)
 
     def empty_display(expr):
         return (isinstance(expr, (ast.List, ast.Tuple)) and
@@ -278,11 +281,12 @@ def _feeder(ctx, loader, nz, rule='C10.3'):
            'one list of restored instances is returned on every exit a '
            'placement can reach: %s' % sorted(names),
            construct='restored list')
-    ctx.require(names, 'restored list of restore_placement')
+    ctx.require(names, 'restored list of restore_placement', rule=rule)
     lst = sorted(names)[0]
     for node, call in places:
         loop = K.enclosing_for(graph, node)
-        ctx.require(loop is not None, 'loop over the recorded instances')
+        ctx.require(loop is not None, 'loop over the recorded instances',
+            rule=rule)
         var = sorted(N.for_targets(loop))[0]
         result = None
         if node.kind == 'stmt' and isinstance(node.ast, ast.Assign) and \
